@@ -383,3 +383,70 @@ def pv_any_tail(ts: 'seq[Term]'):
     pv_anyl_any(ts, 1)
     pv_anyl0(ts[1:])
     ensures(pv_any(ts[1:], 0) == pv_any(ts, 1))
+
+
+# ---------------------------------------------------------------- membership (and_pos, and_neg, contraction)
+def meml(ts: 'seq[Term]', x: 'Term') -> bool:
+    """x is a member of ts (head / tail recursion)"""
+    if len(ts) == 0:
+        return False
+    else:
+        return ts[0] == x or meml(ts[1:], x)
+
+
+@lemma
+def pv_alll_mem(ts: 'seq[Term]', x: 'Term'):
+    """a member of a list of true formulas is true"""
+    requires(meml(ts, x))
+    decreases(len(ts))
+    if len(ts) > 0:
+        if ts[0] != x:
+            pv_alll_mem(ts[1:], x)
+    ensures(implies(pv_alll(ts), pv(x)))
+
+
+@lemma
+def pv_anyl_mem(ts: 'seq[Term]', x: 'Term'):
+    """a true member makes the clause true"""
+    requires(meml(ts, x))
+    decreases(len(ts))
+    if len(ts) > 0:
+        if ts[0] != x:
+            pv_anyl_mem(ts[1:], x)
+    ensures(implies(pv(x), pv_anyl(ts)))
+
+
+@lemma
+def pv_alll_sub(ss: 'seq[Term]', ts: 'seq[Term]'):
+    """if every member of ss is a member of ts and all of ts are true, all of ss are true"""
+    requires(set(ts).issuperset(set(ss)))
+    decreases(len(ss))
+    if len(ss) > 0:
+        assert ss[0] in ss
+        assert ss[0] in ts
+        pv_alll_mem(ts, ss[0])
+        pv_alll_sub(ss[1:], ts)
+    ensures(implies(pv_alll(ts), pv_alll(ss)))
+
+
+@lemma
+def pv_anyl_snoc(s: 'seq[Term]', a: 'Term'):
+    """a clause extended at the end"""
+    decreases(len(s))
+    if len(s) > 0:
+        pv_anyl_snoc(s[1:], a)
+        assert (s + [a])[0] == s[0]
+        assert (s + [a])[1:] == s[1:] + [a]
+    else:
+        assert (s + [a])[0] == a
+        assert len((s + [a])[1:]) == 0
+    ensures(pv_anyl(s + [a]) == (pv_anyl(s) or pv(a)))
+
+
+@lemma
+def pv_anyl_snoc2(s: 'seq[Term]', a: 'Term', b: 'Term'):
+    """a clause extended by one and by two literals"""
+    pv_anyl_snoc(s, a)
+    pv_anyl_snoc(s + [a], b)
+    ensures(pv_anyl(s + [a]) == (pv_anyl(s) or pv(a)))
+    ensures(pv_anyl(s + [a] + [b]) == (pv_anyl(s) or pv(a) or pv(b)))
